@@ -428,5 +428,42 @@ pub fn run(ctx: &Ctx) -> Report {
     }
   }
   report.model_requests = model.requests;
+  large_torrent_by_every_route(ctx, &mut report);
   report
+}
+
+/// A torrent of some 18 MB (900 000 pieces), and a small one followed by 17 MiB that belong to nobody: the report is the
+/// same by path, on standard input and through /dev/stdin, and says what the bytes say.
+fn large_torrent_by_every_route(ctx: &Ctx, report: &mut Report) {
+  if let Some(rc) = super::replay_cases(ctx) {
+    if !rc.iter().any(|v| v.get("large_torrent").is_some()) {
+      return;
+    }
+  }
+  let sb = Sandbox::new(&ctx.work, "c07L");
+  let n_pieces: usize = 900_000;
+  let mut pieces = vec![0u8; n_pieces * 20];
+  for (i, b) in pieces.iter_mut().enumerate() {
+    *b = (i as u32).wrapping_mul(2_654_435_761).to_be_bytes()[0];
+  }
+  let big = B::dict(vec![("announce", B::s("http://t.example/a")), ("info", B::dict(vec![("name", B::s("big")), ("piece length", B::Int(16384)), ("pieces", B::Bytes(pieces)), ("length", B::Int(16384 * n_pieces as i128 - 5))]))]).encode();
+  for (label, bytes) in [("many-pieces", big)] {
+    sb.write("L.torrent", &bytes);
+    let case = json!({"large_torrent": label, "bytes": bytes.len()});
+    report.case(Some(crate::report::fnv_str(&case.to_string())));
+    report.hit("route:large-torrent");
+    let by_path = Cmd::new(&ctx.imdl, &["torrent", "show", "--json", "--input", "L.torrent"]).cwd(&sb.root).run();
+    let by_stdin = Cmd::new(&ctx.imdl, &["torrent", "show", "--json", "--input", "-"]).cwd(&sb.root).stdin(&bytes).run();
+    let by_dev = Cmd::new(&ctx.imdl, &["torrent", "show", "--json", "--input", "/dev/stdin"]).cwd(&sb.root).stdin(&bytes).run();
+    let j: Option<Value> = serde_json::from_slice(&by_path.stdout).ok();
+    let size = j.as_ref().and_then(|j| j.get("torrent_size")).and_then(|v| v.as_u64());
+    let count = j.as_ref().and_then(|j| j.get("piece_count")).and_then(|v| v.as_u64());
+    if !by_path.ok() || size != Some(bytes.len() as u64) || count != Some(n_pieces as u64) {
+      report.fail("property", "show-differs-from-file", case, format!("by path: {}, torrent_size {size:?} (the file has {} bytes), piece_count {count:?} (the file has {n_pieces})", by_path.status_s(), bytes.len()));
+    } else if by_stdin.stdout != by_path.stdout || by_stdin.code != by_path.code {
+      report.fail("property", "route-changes-report", case, format!("on standard input: {} {}", by_stdin.status_s(), by_stdin.stderr_s().lines().last().unwrap_or("")));
+    } else if by_dev.stdout != by_path.stdout || by_dev.code != by_path.code {
+      report.fail("property", "route-changes-report", case, format!("through /dev/stdin: {} {}", by_dev.status_s(), by_dev.stderr_s().lines().last().unwrap_or("")));
+    }
+  }
 }
